@@ -211,7 +211,7 @@ def check(ctx: Ctx) -> str:
     hs = [h for h in ast.walk(st.node) if isinstance(h, ast.ExceptHandler)]
     ok = len(hs) == 1 and {ast.unparse(e) for e in (hs[0].type.elts if isinstance(hs[0].type, ast.Tuple) else [hs[0].type])} == {"TemplateNotFound", "UndefinedError"}
     ctx.check(ok, "select:handler", "environment:Environment.select_template", "skipped errors", "select_template must skip exactly TemplateNotFound and UndefinedError for a candidate", st.loc())
-    loops = [n_ for n_ in ast.walk(st.node) if isinstance(n_, ast.For)]
+    loops = [n_ for n_ in ast.walk(st.nnode) if isinstance(n_, ast.For)]  # normal form: `t = load(); return t` after the try is `return load()` inside it
     ok = len(loops) == 1 and ast.unparse(loops[0].iter) == "names" and any(isinstance(x, ast.Return) and "self._load_template(name, globals)" in ast.unparse(x) for x in ast.walk(loops[0]))
     ctx.check(ok, "select:first", "environment:Environment.select_template", "first match wins", "select_template must return the first candidate that loads, in order", st.loc())
     ctx.check(astq.raise_type(astq.raises(st.node)[-1]) == "TemplatesNotFound", "select:none", "environment:Environment.select_template", "none found", "select_template must end with TemplatesNotFound", st.loc())
